@@ -10,3 +10,4 @@ pub mod props;
 pub mod rat;
 pub mod tool;
 pub mod fuzzing;
+pub mod selftest;
